@@ -25,6 +25,11 @@ RULE = ("grammar-generated BED/BED6/narrowPeak/VCF/VCF-with-genotypes/VCF-with-d
         "range; tables are shared objects: a child slice is written first, then the PARENT is written/re-selected/replaced "
         "(`seq`); columns are read (cached) before concatenations (`get`); the table is written through ANOTHER buffer type than it "
         "was read with (superclass writer: raw bytes; other writer: joined field texts; FASTQ/FASTA -> multi-line FASTA writer); "
+        "files WITHOUT a terminating newline (LF and CRLF, every text format, 12% of the random cases and a fixed family with "
+        "selections containing the last record and replaced writes; SAM with a last line without optional tags); index spellings "
+        "(Python list, int32 array, list of NumPy scalars, mask as list); SEVERAL objects alive together: the chunks handed out by ONE "
+        "reader (read_chunk repeatedly) or the tables of two readers, one of them modified IN PLACE by attribute assignment (`set`) - "
+        "every other one must still write its own source bytes / read its own columns, the modified one writes the assigned column; "
         "observable = bytes written by bnp.open(out,'w').write(result). Non-trivial = program has >= 2 steps and the selection "
         "is a proper/re-ordered/repeated subset, or >= 1 replaced field")
 EXHAUSTIVE = {"quick": False, "thorough": False}
@@ -37,6 +42,9 @@ ASSUMPTIONS = [
     "single integer index t[i] returns one eager entry that cannot be written; its values are C05's subject",
     "every table of a case is read once and shared by all its uses in the program (Python object identity); in the Lean model "
     "values are immutable, `seq` only propagates failure and `get` (reading a column) is the identity on the extractor",
+    "chunk boundaries of read_chunk(min_chunk_size) are taken from the implementation (C01's subject); a chunk is the table of "
+    "the records the reader put into it; attribute assignment on a table is specified as `replace` on every later use of that "
+    "same object and as nothing on any other object (implementation vs oracle only: the overlay is C05's model)",
     "replacement values are int / string / strand columns (float and quality formatting are C03/C18)",
     "BAM: records produced by an independent spec-level encoder in this module; BamBuffer has no concatenate and does not "
     "support modified writes, so BAM programs are selections only",
@@ -361,6 +369,7 @@ def _new_values(rng, kind, n):
 def make_case(rng, fmt, depth, replace_p=0.3, eol=None):
     ntab = rng.choice([1, 2, 2, 3])
     shape = {"samples": rng.choice([-1, 0, 1, 2, 3]) if fmt in ("vcf", "vcfi") else rng.choice([1, 2, 3]), "nc": rng.random() < 0.5}
+    fixed = eol is not None      # the fixed families assemble their tables from pieces and strip the final newline themselves
     eol = eol if eol is not None else ("\r\n" if (fmt != "bam" and rng.random() < 0.2) else "\n")
     tables = []
     for _ in range(ntab):
@@ -382,7 +391,7 @@ def make_case(rng, fmt, depth, replace_p=0.3, eol=None):
     if rep and n and rng.random() < replace_p:
         ks = sorted(rng.sample(sorted(rep), rng.choice([1, 1, 2, min(3, len(rep)), len(rep)])))
         c["repl"] = [[k, rep[k], _new_values(rng, rep[k], n)] for k in ks]
-    if rng.random() < 0.12:
+    if not fixed and rng.random() < 0.12:
         c = _nofinal(c)
     return _set_op(c)
 
@@ -658,6 +667,15 @@ def cases(tier, rng):
             if fmt in ("vcf", "vcfg", "vcfi") and len({r["raw"].count("\t") for r in base["recs"][0]}) != 1:
                 base["recs"][0] = [base["recs"][0][i % 2] if base["recs"][0][0]["raw"].count("\t") == base["recs"][0][1]["raw"].count("\t")
                                    else base["recs"][0][0] for i in range(8)]
+            # two READERS (two files of the format) alive together, the table of one modified in place
+            two = dict(base, recs=[base["recs"][0][:5], base["recs"][0][3:]])
+            T = lambda i: {"t": i}
+            for k in rng.sample(sorted(rep), min(2, len(rep))):
+                S = lambda i: {"set": T(i), "kw": [[k, rep[k], _new_values(rng, rep[k], len(two["recs"][i]))]]}
+                for pr in ({"seq": [S(0), T(1)]}, {"seq": [S(1), T(0)]}, {"seq": [S(0), {"cat": [T(1), T(0)]}]},
+                           {"seq": [S(1), {"sel": T(1), "ix": {"slice": [None, None, -1]}}]},
+                           {"seq": [S(0), {"sel": {"cat": [T(0), T(1)]}, "ix": {"slice": [1, None, 2]}}]}):
+                    yield _set_op(dict(two, prog=pr))
             total = sum(len(r["raw"]) for r in base["recs"][0])
             for size in (len(_header(base)) + total // 2, max(1, total // 4)):
                 plens = _chunk_parts(base, 0, size)
